@@ -29,12 +29,13 @@ Definition sym_h (s : source) : Z := s_y1 s - s_y0 s.
 Definition module (s : source) (i j : Z) : C := s_px s (s_x0 s + i) (s_y0 s + j).
 
 (* ---------- domain ---------- *)
-Definition two31 : Z := 2147483648.
+Definition two31 : Z := 4611686018427387904.  (* 2^62: see the guard below; the name is historical *)
 
 (* every encoder of /repo and every scaled barcode has Bounds().Min = (0,0) *)
 Definition origin_anchored (s : source) : Prop := s_x0 s = 0 /\ s_y0 s = 0.
 
-(* a non-empty symbol whose extents are int32-sized *)
+(* a non-empty symbol whose extents fit comfortably into Go's 64-bit int: below 2^62 no intermediate value of
+   the (integer) arithmetic of scaledbarcode.go can overflow: orgWidth*factor <= width, x-offset < width *)
 Definition source_ok (s : source) : Prop :=
   origin_anchored s /\ 1 <= sym_w s < two31 /\ 1 <= sym_h s < two31.
 
